@@ -2,6 +2,8 @@ import Hertz.Model.Http1.Stream
 import Hertz.Proofs.StreamChunked
 import Hertz.Model.Http1.StreamX
 import Hertz.Proofs.StreamX
+import Hertz.Model.Http1.StreamApi
+import Hertz.Proofs.StreamApi
 /-!
 # C14 — a streamed request body reads exactly the body and keeps the connection in sync
 
@@ -54,7 +56,33 @@ lemmas in `Proofs/StreamChunked.lean`):
   rejected trailer, wire ended; fixed length too) gives `After.closed`, and in the event list of the
   whole connection nothing but that request's response follows it.
 
+Proved here (handlers that consume the stream through hertz's own request API - `MultipartForm/FormFile/FormValue/
+PostForm`, `Body()`, `BodyWriteTo`, `CloseBodyStream`, `ResetBody`, `SetBodyStream` -, model `Model/Http1/StreamApi.lean`,
+lemmas `Proofs/StreamApi.lean`; every statement for an arbitrary program: any read size, any stop point, any amount the
+multipart reader takes):
+* `attached_is_plain_model`, `after_means_next_request_from_rest_any_program`: the loop with per-request programs is the loop
+  above for programs that keep the stream, and always goes on at exactly the `rest` of `resync`/`either`;
+* `form_parse_reads_prefix`, `form_parse_reads_prefix_fixed`: a form parse obtains a prefix of the body for ANY consumed amount;
+* `sync_after_any_consumption_partial` (chunked), `sync_after_any_consumption_fixed_partial`: after the handler returns the
+  connection is closed or the next request is parsed from exactly `rest`, provided the request still references the stream
+  the server built, or the stream was read to its reported end (fixed length: or the body lay within the prefetch);
+  `sync_after_form_parse`, `body_all_reads_everything` (instances for the form APIs and `Body()`);
+  `sync_after_any_consumption_on_connection`: the same on the event list of the connection (after the response: over, or
+  the events of exactly `rest`);
+* `detached_stream_is_drained_or_closed_fails_at`, `sync_after_any_consumption_fails_at`,
+  `stream_error_closes_fails_at_detached`: WITHOUT the proviso the statements are false of the code as it stands (known
+  finding `stream-detached-undrained`: `CloseBodyStream()/ResetBody()/SetBodyStream(wrapper)` before the end of the body, or
+  `Body()` on malformed framing, leave body bytes to be parsed as the next request); `detached_stream_is_drained_or_closed_partial`
+  is what the proposed repair (release the stream the server built) establishes.
+
 TODO-OPEN:
+* `sync_after_any_consumption` / `detached_stream_is_drained_or_closed` at full strength are false of the current code (see
+  the `_fails_at` theorems); they become provable by replacing `streamBodyP` with `streamBody` once the repair is in /repo;
+* the amount `mime/multipart` takes from the stream as a function of chunking and bufio read-ahead is a parameter, not
+  modelled; sequences of several API calls are covered only through their net effect on the stream (one `Prog`);
+  a handler that keeps the stream and reads it in a goroutine after returning is not modelled;
+* the position of the connection after a FAILED read on a detached chunked stream (inside the refused framing line) is not
+  modelled exactly (the driver does not compare it, the spec predicate judges the implementation's output);
 * trailer lines that begin with a blank AND contain a colon (the look-ahead does not join them; they are
   scanned as a field whose name has a leading blank and rejected) and trailer sections with a
   repeated `0\r\n` line in front (hertz skips and counts it — see the example below —, the strict
@@ -447,5 +475,255 @@ example : ∀ poll, (serveStreamX {} poll .eof { readSize := 64, stopAfter := 10
       | .continue100 => (0, [], false) | .req r => (1, r.got.bytes, r.got.err) | .resp _ _ => (2, [], false)
       | .maybeClosed => (3, [], false)) =
     [(1, [104, 101, 108, 108, 111], true), (2, [], false)] := by decide +kernel
+
+
+/-! ## handlers that consume the stream through hertz's own request API
+
+`Model/Http1/StreamApi.lean`: the alphabet `Api` (`read`, `formParse upTo` - `MultipartForm()/FormFile/FormValue/PostForm`,
+where the amount `upTo` the multipart reader takes is a parameter -, `bodyAll`, `writeTo`, `closeStream`, `replaceStream`,
+`readThenBody`, `none`), a program `Prog` = the `Read` calls that reach the stream + what the request references when the
+handler returns (`Fin`), and the loop's post-handler step exactly as in `http1/server.go`: `skipRest`, and the check of a
+remembered read error, run only if `ctx.Request.IsBodyStream()` still yields the `*bodyStream` the server built.
+Lemmas in `Proofs/StreamApi.lean`.  The statements are about an arbitrary `Prog` (any read size, any stop point, any
+`Fin`), which covers every `Api.prog`. -/
+
+/-- programs that leave the stream attached run the loop of the theorems above -/
+theorem attached_is_plain_model (cfg : Cfg) (e : End) (c : Consume) (fuel : Nat) (first : Bool) (s : Bytes) :
+    (streamLoopP cfg e (fun _ _ => ⟨c, .attached⟩) fuel first s).map PEv.toSEv = streamLoop cfg e c fuel first s :=
+  streamLoopP_attached cfg e c fuel first s
+
+/-- in the loop with per-request programs the next request is parsed from exactly the `rest` of `resync rest` /
+`either rest`, for every program -/
+theorem after_means_next_request_from_rest_any_program (cfg : Cfg) (e : End) (prog : ReqHead → Bytes → Prog) (fuel : Nat)
+    (first : Bool) (s : Bytes) (hd : ReqHead) (n : Nat) (r : ReqOut) (a : After)
+    (hgo : (!first && decide (s.length < 4)) = false) (hp : parseReqHead cfg.disableNorm s = .ok (hd, n))
+    (hb : streamBodyP cfg e hd (s.drop n) (prog hd (s.drop n)) = .ok (r, a))
+    (hk : (cfg.disableKeepalive || r.head.connClose) = false) :
+    streamLoopP cfg e prog (fuel + 1) first s =
+      (if mayContinue hd then [PEv.continue100] else []) ++
+        [.req r (if r.streamed then (prog hd (s.drop n)).fin else .attached), .resp 200 false] ++
+        match a with
+        | .resync rest => streamLoopP cfg e prog fuel false rest
+        | .closed => []
+        | .either rest => .maybeClosed :: streamLoopP cfg e prog fuel false rest :=
+  streamLoopP_after cfg e prog fuel first s hd n r a hgo hp hb hk
+
+/-- `MultipartForm()` & co. on a chunked upload, for ANY amount `upTo` the multipart reader takes: what it obtains is
+a prefix of the de-chunked body - never a byte of the terminator, the trailer or the next request -, exactly the first
+`upTo` bytes if no read failed, and it is told end-of-stream iff it asked for more than the body. -/
+theorem form_parse_reads_prefix (cfg : Cfg) (e : End) (hd : ReqHead) (upTo n : Nat) (m : ChunkedMsg) (rest : Bytes)
+    (r : ReqOut) (a : After) (hcl : hd.cl = -1) (hm : m.Wf)
+    (h : streamBodyP cfg e hd (m.bytes ++ rest) ((Api.formParse upTo).prog n) = .ok (r, a)) :
+    r.got.bytes <+: m.body ∧ r.got.bytes.length ≤ upTo ∧
+      (r.got.err = false → r.got.bytes = m.body.take upTo ∧ (r.got.eof = true ↔ m.body.length < upTo)) := by
+  rw [streamBodyP_attached _ _ _ _ _ rfl] at h
+  exact chunked_reads_prefix cfg e hd _ m rest r a hcl hm h
+
+/-- the same for a fixed-length upload (streamed when multipart pre-parsing is off): a prefix of the `Content-Length`
+bytes, and afterwards the connection is closed or stands right behind them. -/
+theorem form_parse_reads_prefix_fixed (cfg : Cfg) (e : End) (hd : ReqHead) (upTo n : Nat) (s : Bytes)
+    (r : ReqOut) (a : After) (hcl : 0 ≤ hd.cl)
+    (h : streamBodyP cfg e hd s ((Api.formParse upTo).prog n) = .ok (r, a)) :
+    r.got.bytes <+: s.take hd.cl.toNat ∧ r.got.bytes.length ≤ upTo ∧ After.InSync a (s.drop hd.cl.toNat) := by
+  rw [streamBodyP_attached _ _ _ _ _ rfl] at h
+  have h1 := fixed_reads_prefix cfg e hd s _ r a hcl h
+  refine ⟨h1.1, h1.2.1, ?_⟩
+  rcases fixed_after cfg e hd s _ r a hcl h with ha | ha
+  · exact Or.inl ha
+  · exact Or.inr (Or.inl ha)
+
+/-- (2) for every consumption program on a well-formed chunked message (trailer section of field lines) followed by any
+`rest`: the connection is closed or the next request is parsed from exactly `rest` - PROVIDED the request still
+references the stream when the handler returns, or the stream was read to its reported end without a failed read.
+(`MultipartForm`, own reads, `none`: attached; `Body()`, `BodyWriteTo`, `PostArgs`: detached after reading to the end.)
+Without the proviso the statement is false of the code: `sync_after_any_consumption_fails_at`. -/
+theorem sync_after_any_consumption_partial (cfg : Cfg) (e : End) (hd : ReqHead) (p : Prog) (m : ChunkedMsg)
+    (ls : List Bytes) (rest : Bytes) (r : ReqOut) (a : After) (hcl : hd.cl = -1) (hm : m.Wf)
+    (hls : ∀ l ∈ ls, TrFieldOk l) (htr : m.trailer = encTrailer ls)
+    (h : streamBodyP cfg e hd (m.bytes ++ rest) p = .ok (r, a))
+    (hsafe : p.fin = .attached ∨ (r.got.eof = true ∧ r.got.err = false)) :
+    After.InSync a rest := by
+  by_cases hf : p.fin = .attached
+  · rw [streamBodyP_attached _ _ _ _ _ hf] at h
+    have := chunked_resync_exact cfg e hd p.c m ls rest r a hcl hm hls htr h
+    rw [this]
+    unfold After.InSync
+    cases r.got.err <;> cases r.got.eof <;> simp
+  · rcases hsafe with hs | ⟨heof, herr⟩
+    · exact absurd hs hf
+    · rw [streamBodyP_chunked_detached _ _ _ _ _ hf hcl] at h
+      simp only [Except.ok.injEq, Prod.mk.injEq] at h
+      rw [← h.1] at heof herr
+      simp only at heof herr
+      rw [← h.2, eof_position cfg e hd.trailer p.c m hm ls hls htr rest _ herr heof]
+      exact Or.inr (Or.inl rfl)
+
+/-- (2) on the connection: a kept-alive upload with a well-formed chunked body, any program satisfying the proviso, any
+`rest`: after the request's response the event list is over (closed), or continues with the events of exactly `rest`
+(`maybeClosed`: or is over) - no byte of the body, the terminator or the trailer is ever parsed as a request, and no byte
+of `rest` is lost. -/
+theorem sync_after_any_consumption_on_connection (cfg : Cfg) (e : End) (prog : ReqHead → Bytes → Prog) (fuel : Nat)
+    (first : Bool) (s : Bytes) (hd : ReqHead) (n : Nat) (m : ChunkedMsg) (ls : List Bytes) (rest : Bytes) (r : ReqOut) (a : After)
+    (hgo : (!first && decide (s.length < 4)) = false) (hp : parseReqHead cfg.disableNorm s = .ok (hd, n))
+    (hs : s.drop n = m.bytes ++ rest) (hcl : hd.cl = -1) (hm : m.Wf)
+    (hls : ∀ l ∈ ls, TrFieldOk l) (htr : m.trailer = encTrailer ls)
+    (hb : streamBodyP cfg e hd (s.drop n) (prog hd (s.drop n)) = .ok (r, a))
+    (hsafe : (prog hd (s.drop n)).fin = .attached ∨ (r.got.eof = true ∧ r.got.err = false))
+    (hk : (cfg.disableKeepalive || r.head.connClose) = false) :
+    ∃ tail, streamLoopP cfg e prog (fuel + 1) first s =
+        (if mayContinue hd then [PEv.continue100] else []) ++
+          [.req r (if r.streamed then (prog hd (s.drop n)).fin else .attached), .resp 200 false] ++ tail ∧
+      (tail = [] ∨ tail = streamLoopP cfg e prog fuel false rest ∨ tail = .maybeClosed :: streamLoopP cfg e prog fuel false rest) := by
+  have hloop := streamLoopP_after cfg e prog fuel first s hd n r a hgo hp hb hk
+  have hb' := hb
+  rw [hs] at hb'
+  have hin := sync_after_any_consumption_partial cfg e hd _ m ls rest r a hcl hm hls htr hb' (by rw [← hs]; exact hsafe)
+  rcases hin with ha | ha | ha <;> subst ha
+  · exact ⟨[], hloop, Or.inl rfl⟩
+  · exact ⟨_, hloop, Or.inr (Or.inl rfl)⟩
+  · exact ⟨_, hloop, Or.inr (Or.inr rfl)⟩
+
+/-- every program of the alphabet that keeps the stream: in particular the form APIs for ANY consumed amount -/
+theorem sync_after_form_parse (cfg : Cfg) (e : End) (hd : ReqHead) (upTo n : Nat) (m : ChunkedMsg)
+    (ls : List Bytes) (rest : Bytes) (r : ReqOut) (a : After) (hcl : hd.cl = -1) (hm : m.Wf)
+    (hls : ∀ l ∈ ls, TrFieldOk l) (htr : m.trailer = encTrailer ls)
+    (h : streamBodyP cfg e hd (m.bytes ++ rest) ((Api.formParse upTo).prog n) = .ok (r, a)) :
+    After.InSync a rest :=
+  sync_after_any_consumption_partial cfg e hd _ m ls rest r a hcl hm hls htr h (Or.inl rfl)
+
+/-- `Body()` / `BodyWriteTo` / `PostArgs()` on a well-formed chunked message whose trailer the reader accepts: the
+caller gets exactly the de-chunked body, and although the stream is detached afterwards the connection stands exactly
+behind the message (everything was read). -/
+theorem body_all_reads_everything (cfg : Cfg) (e : End) (hd : ReqHead) (m : ChunkedMsg)
+    (ls : List Bytes) (rest : Bytes) (r : ReqOut) (a : After) (hcl : hd.cl = -1) (hm : m.Wf)
+    (hls : ∀ l ∈ ls, TrFieldOk l) (htr : m.trailer = encTrailer ls)
+    (h : streamBodyP cfg e hd (m.bytes ++ rest) (Api.bodyAll.prog (m.bytes ++ rest).length) = .ok (r, a))
+    (herr : r.got.err = false) :
+    r.got.bytes = m.body ∧ r.got.eof = true ∧ a = .resync rest := by
+  have hne : (Api.bodyAll.prog (m.bytes ++ rest).length).fin ≠ .attached := by simp [Api.prog]
+  have h' := h
+  rw [streamBodyP_chunked_detached _ _ _ _ _ hne hcl] at h'
+  simp only [Except.ok.injEq, Prod.mk.injEq] at h'
+  have hlen := body_length_le m rest
+  have hr := chunked_reads cfg e hd.trailer (Api.bodyAll.prog (m.bytes ++ rest).length).c m hm rest
+    ((Api.bodyAll.prog (m.bytes ++ rest).length).c.stopAfter + (m.bytes ++ rest).length + 2)
+  rw [← h'.1] at herr
+  simp only at herr
+  have h3 := hr.2.2 herr
+  have hstop : (Api.bodyAll.prog (m.bytes ++ rest).length).c.stopAfter = (m.bytes ++ rest).length + 1 := rfl
+  have heof := h3.2.mpr (by rw [hstop]; omega)
+  refine ⟨?_, ?_, ?_⟩
+  · rw [← h'.1]; simp only
+    rw [h3.1, hstop, List.take_of_length_le (by omega)]
+  · rw [← h'.1]; exact heof
+  · rw [← h'.2, eof_position cfg e hd.trailer _ m hm ls hls htr rest _ herr heof]
+
+/-- (2) fixed length, every program: closed or exactly behind the `Content-Length` bytes - PROVIDED the request still
+references the stream, or the body was within the prefetch (`min(length, limit, 8 KiB)` bytes are taken from the
+connection before the handler runs), or the handler obtained all of it. -/
+theorem sync_after_any_consumption_fixed_partial (cfg : Cfg) (e : End) (hd : ReqHead) (s : Bytes) (p : Prog)
+    (r : ReqOut) (a : After) (hcl : 0 ≤ hd.cl)
+    (h : streamBodyP cfg e hd s p = .ok (r, a))
+    (hsafe : p.fin = .attached ∨ hd.cl.toNat ≤ prefetchLen cfg hd.cl.toNat ∨ r.got.bytes.length = hd.cl.toNat) :
+    After.InSync a (s.drop hd.cl.toNat) := by
+  by_cases hf : p.fin = .attached
+  · rw [streamBodyP_attached _ _ _ _ _ hf] at h
+    rcases fixed_after cfg e hd s _ r a hcl h with ha | ha
+    · exact Or.inl ha
+    · exact Or.inr (Or.inl ha)
+  · have h2 : ¬ hd.cl = -2 := by omega
+    have h1 : ¬ hd.cl = -1 := by omega
+    simp only [streamBodyP, hf, h2, h1, if_false] at h
+    cases hb : streamBody cfg e hd s p.c with
+    | error x => simp [hb] at h
+    | ok v =>
+      obtain ⟨r', a'⟩ := v
+      simp only [hb, Except.ok.injEq, Prod.mk.injEq] at h
+      have hpre := fixed_reads_prefix cfg e hd s p.c r' a' hcl hb
+      have hk : r'.got.bytes.length ≤ hd.cl.toNat := by
+        have := hpre.1.length_le
+        simp only [List.length_take] at this
+        omega
+      have hp : prefetchLen cfg hd.cl.toNat ≤ hd.cl.toNat := by unfold prefetchLen; omega
+      have hmax : max (prefetchLen cfg hd.cl.toNat) r'.got.bytes.length = hd.cl.toNat := by
+        rcases hsafe with hs | hs | hs
+        · exact absurd hs hf
+        · omega
+        · rw [← h.1] at hs; omega
+      rw [← h.2, hmax]
+      exact Or.inr (Or.inl rfl)
+
+/-- `sync_after_any_consumption` and `detached_stream_is_drained_or_closed` as asked for are FALSE of the code as it
+stands (known finding `stream-detached-undrained`, replayed against the real server by the check): the example message
+`3 abc / 02 de / 0` followed by `GET`, handler calls `c.Request.CloseBodyStream()` (or `ResetBody()`): the loop's
+`IsBodyStream()` test skips the drain and the next request is parsed from the first byte of the BODY. -/
+theorem detached_stream_is_drained_or_closed_fails_at :
+    ∃ a, (streamBodyP {} .eof { cl := -1 } ((msgOf [13, 10]).bytes ++ [71, 69, 84]) (Api.closeStream.prog 25)).toOption.map (·.2) = some a ∧
+      ¬ After.InSync a [71, 69, 84] :=
+  ⟨.resync [51, 13, 10, 97, 98, 99, 13, 10, 48, 50, 32, 13, 10, 100, 101, 13, 10, 48, 13, 10, 13, 10, 71, 69, 84], by decide +kernel,
+   by intro h; rcases h with h | h | h <;> simp at h⟩
+
+/-- the same through a wrapper put in place of the stream (`SetBodyStream`), after reading 4 of the 5 body bytes: the
+next request is parsed from `e\r\n0\r\n\r\nGET`. -/
+theorem sync_after_any_consumption_fails_at :
+    ∃ a, (streamBodyP {} .eof { cl := -1 } ((msgOf [13, 10]).bytes ++ [71, 69, 84]) ((Api.replaceStream 3 4).prog 25)).toOption.map (·.2) = some a ∧
+      ¬ After.InSync a [71, 69, 84] :=
+  ⟨.resync [101, 13, 10, 48, 13, 10, 13, 10, 71, 69, 84], by decide +kernel,
+   by intro h; rcases h with h | h | h <;> simp at h⟩
+
+/-- `stream_error_closes` does not survive `Body()`: a refused chunk-size line (`zz`) makes the read fail, `Body()`
+drops the error and detaches the stream, and the connection is NOT closed (same known finding). -/
+theorem stream_error_closes_fails_at_detached :
+    (streamBodyP {} .eof { cl := -1 } [49, 13, 10, 97, 13, 10, 122, 122, 13, 10, 13, 10, 71, 69, 84] (Api.bodyAll.prog 15)).toOption.map
+      (fun p => (p.1.got.err, decide (p.2 = .closed))) = some (true, false) := by decide +kernel
+
+/-- what the repair has to establish (`patches/C14-release-stream-built-by-server.diff`): releasing the stream the
+server built, whatever the request references, is the attached behaviour - for every program the reads are the same and
+the connection is in sync. -/
+theorem detached_stream_is_drained_or_closed_partial (cfg : Cfg) (e : End) (hd : ReqHead) (p : Prog) (m : ChunkedMsg)
+    (ls : List Bytes) (rest : Bytes) (r : ReqOut) (a : After) (hcl : hd.cl = -1) (hm : m.Wf)
+    (hls : ∀ l ∈ ls, TrFieldOk l) (htr : m.trailer = encTrailer ls)
+    (h : streamBodyP cfg e hd (m.bytes ++ rest) { p with fin := .attached } = .ok (r, a)) :
+    After.InSync a rest :=
+  sync_after_any_consumption_partial cfg e hd _ m ls rest r a hcl hm hls htr h (Or.inl rfl)
+
+/-- non-vacuity of `sync_after_form_parse` / `form_parse_reads_prefix`: the multipart reader takes 4 bytes (inside the
+second chunk); drained to exactly `GET`. -/
+example : (streamBodyP {} .eof { cl := -1 } ((msgOf (encTrailer [[88, 58, 49]])).bytes ++ [71, 69, 84])
+    ((Api.formParse 4).prog 33)).toOption.map (fun p => (p.1.got.bytes, p.1.got.eof, p.1.got.err, p.2)) =
+    some ([97, 98, 99, 100], false, false, .either [71, 69, 84]) := by decide +kernel
+
+/-- non-vacuity of `body_all_reads_everything`: `Body()` on the example message with trailer `X:1`. -/
+example : (streamBodyP {} .eof { cl := -1 } ((msgOf (encTrailer [[88, 58, 49]])).bytes ++ [71, 69, 84])
+    (Api.bodyAll.prog ((msgOf (encTrailer [[88, 58, 49]])).bytes ++ [71, 69, 84]).length)).toOption.map
+      (fun p => (p.1.got.bytes, p.1.got.eof, p.1.got.err, p.2)) =
+    some ([97, 98, 99, 100, 101], true, false, .resync [71, 69, 84]) := by decide +kernel
+
+/-- non-vacuity of `sync_after_any_consumption_fixed_partial`, third proviso: Content-Length 5, `Body()`, detached. -/
+example : (streamBodyP {} .eof { cl := 5, method := [80] } [1, 2, 3, 4, 5, 71, 69, 84] (Api.bodyAll.prog 8)).toOption.map
+    (fun p => (p.1.got.bytes, p.2)) = some ([1, 2, 3, 4, 5], .resync [71, 69, 84]) := by decide +kernel
+
+/-- the whole connection, model on the CURRENT behaviour: upload `/c` (chunked `abc`,`de`, trailer `X:1`) + pipelined
+`GET /probe`.  With `MultipartForm`-style consumption (any amount, here 4 bytes) the probe is served; with
+`CloseBodyStream()` the body bytes are parsed as a request: 400, connection closed, probe lost. -/
+example : ((serveStreamP {} .eof (fun _ _ => (Api.formParse 4).prog 0)
+    [80, 79, 83, 84, 32, 47, 99, 32, 72, 84, 84, 80, 47, 49, 46, 49, 13, 10, 72, 111, 115, 116, 58, 32,
+    104, 13, 10, 84, 114, 97, 110, 115, 102, 101, 114, 45, 69, 110, 99, 111, 100, 105, 110, 103, 58, 32,
+    99, 104, 117, 110, 107, 101, 100, 13, 10, 13, 10, 51, 13, 10, 97, 98, 99, 13, 10, 48, 50, 32, 13,
+    10, 100, 101, 13, 10, 48, 13, 10, 88, 58, 49, 13, 10, 13, 10, 71, 69, 84, 32, 47, 112, 114, 111, 98,
+    101, 32, 72, 84, 84, 80, 47, 49, 46, 49, 13, 10, 72, 111, 115, 116, 58, 32, 112, 13, 10, 13, 10]).map
+    (fun ev => match ev with
+      | .continue100 => (0, []) | .req r _ => (1, r.head.uri) | .resp st _ => (st, []) | .maybeClosed => (3, []))) =
+    [(1, [47, 99]), (200, []), (3, []), (1, [47, 112, 114, 111, 98, 101]), (200, [])] := by decide +kernel
+
+example : ((serveStreamP {} .eof (fun hd _ => if hd.uri = [47, 99] then Api.closeStream.prog 0 else Api.none.prog 0)
+    [80, 79, 83, 84, 32, 47, 99, 32, 72, 84, 84, 80, 47, 49, 46, 49, 13, 10, 72, 111, 115, 116, 58, 32,
+    104, 13, 10, 84, 114, 97, 110, 115, 102, 101, 114, 45, 69, 110, 99, 111, 100, 105, 110, 103, 58, 32,
+    99, 104, 117, 110, 107, 101, 100, 13, 10, 13, 10, 51, 13, 10, 97, 98, 99, 13, 10, 48, 50, 32, 13,
+    10, 100, 101, 13, 10, 48, 13, 10, 88, 58, 49, 13, 10, 13, 10, 71, 69, 84, 32, 47, 112, 114, 111, 98,
+    101, 32, 72, 84, 84, 80, 47, 49, 46, 49, 13, 10, 72, 111, 115, 116, 58, 32, 112, 13, 10, 13, 10]).map
+    (fun ev => match ev with
+      | .continue100 => (0, []) | .req r _ => (1, r.head.uri) | .resp st _ => (st, []) | .maybeClosed => (3, []))) =
+    [(1, [47, 99]), (200, []), (400, [])] := by decide +kernel
 
 end Hertz.Props.C14
